@@ -56,6 +56,20 @@ arg = "C20"
     (`save_json:truncate-then-write` for the unrepaired code).
     `atomicB = 0` alone is not a disagreement (another safe discipline is conceivable); it is counted.
     non-trivial = a save with >= 1 earlier run and >= 2 written chunks; distinct by (earlier runs, size).
+
+Observed on the unchanged tree (reported, not all of them violations):
+  * C20 fails: `save_json` opens data.json with "w" and then dumps; every crash point between the open
+    and the last write leaves an empty / truncated, unparsable file and loses every earlier run
+    (key `save_json:truncate-then-write`); with no earlier file the crash leaves an EMPTY data.json on
+    which every later `save_json` raises JSONDecodeError.
+  * data.json is not strict JSON: NaN / Infinity are written as bare tokens (Python's json accepts them).
+  * `from_json` rebuilds `actions` with `np.array(list)` and no dtype: integer arrays (greedy) come back
+    int64, float arrays float64, NaN-padded 3-D arrays (best_states) keep shape and padding; `data` is
+    forced to float64.  A run of ZERO steps does not round-trip: actions of shape (0, 1) are stored as
+    `[]` and read back with shape (0,) float64 — hence "a run of at least one step" in the property.
+  * `save()` (all SAVERS) under an existing name raises FileExistsError in `save_draw_coalitions`
+    (after re-drawing the data plot); data.json itself is unchanged, which is what C19 speaks about.
+    The stream restricts SAVERS to data.json while the commands run (in this process only).
 """
 from __future__ import annotations
 
@@ -1059,7 +1073,7 @@ def run_c20(tier, budget: Budget, rnd) -> StreamResult:
     res = StreamResult("store-c20")
     script = Script()
     base = Path(tempfile.mkdtemp(prefix="verif_c20_", dir="/tmp"))
-    nsaves = 14 if tier == "quick" else 300
+    nsaves = 24 if tier == "quick" else 300
     seen_keys = set()
     all_ops = []
     try:
